@@ -300,6 +300,14 @@ func GenScenario(seed int64, class string, thorough bool) *Scenario {
 		RebroadcastAfter: uint64(rng.Intn(4)),
 		RebroadcastBase:  d * time.Duration(1+rng.Intn(3)),
 	}
+	if class == "gst" && sc.Opts.BackOff == 1.0 {
+		// C06 is not quantified over option values. With a back-off exponent of exactly 1 the step
+		// timeouts stay at 2*delta for ever, which is no more than start skew (<= delta) plus latency
+		// (<= delta): when every honest member is needed for the quorum one late PREPARE per round
+		// keeps the instance going round after round (seen: thorough seed 1 cases 7764 and 9623,
+		// 41 rounds after stabilisation on the unchanged tree). Termination needs growing timeouts.
+		sc.Opts.BackOff = 1.15
+	}
 	sc.Forks = rng.Intn(4)
 	sc.MaxLen = []int{1, 3, 6, 12}[rng.Intn(4)]
 	// inputs up to the protocol maximum (128 tipsets incl. the base): the lengths around the
